@@ -580,6 +580,7 @@ def warping_paths_affinity(s1, s2, window=None, only_triu=False,
     s = DTWSettings.for_dtw(s1, s2, window=window, psi=psi, penalty=penalty, use_c=use_c)
     r, c = len(s1), len(s2)
     psi_1b, psi_1e, psi_2b, psi_2e = s.split_psi()
+    penalty = 0 if s.penalty is None else s.penalty
     dtw = np.full((r + 1, c + 1), -inf)
     # dtw[0, 0] = 0
     for i in range(psi_2b + 1):
@@ -598,8 +599,8 @@ def warping_paths_affinity(s1, s2, window=None, only_triu=False,
             d = np.exp(-gamma*(s1[i] - s2[j])**2)
             # print(f"{s1[i] - s2[j]=} -> {d=}")
             dtw_prev = max(dtw[i0, j],
-                           dtw[i0, j + 1] - s.penalty,
-                           dtw[i1, j] - s.penalty)
+                           dtw[i0, j + 1] - penalty,
+                           dtw[i1, j] - penalty)
             if d < tau:
                 dtw[i1, j + 1] = max(0, delta + delta_factor * dtw_prev)
             else:
